@@ -27,6 +27,23 @@ def run(chk):
         if v["sig"].startswith("harness:"):
             raise vlib.MachineryError("C13 scenario did not reach its wait state: " + v["desc"])
         chk.violation(v["sig"], v["desc"], dict(kind="c13", detail=v))
+    # the fault scripts of C04 with one context for all calls, ended at a random instant in whatever state the script left
+    wd3 = vlib.scratch("verif-c13s-")
+    t3 = vlib.go_test("", "^TestVerifC13Scripts$", env=dict(VERIF_OUT=wd3, VERIF_SEED=str(chk.seed),
+                      VERIF_N="1500" if chk.tier == "thorough" else "60"), timeout=1700, race=True)
+    rf3 = os.path.join(wd3, "c13s_result.json")
+    if not os.path.exists(rf3) or t3["rc"] != 0:
+        v = vlib.classify_panic(t3["out"]) or vlib.classify_race(t3["out"])
+        if v:
+            chk.violation(v["sig"], v["desc"], dict(kind="panic"))
+            return
+        raise vlib.MachineryError("C13 script driver failed:\n" + t3["out"][-3500:])
+    res3 = json.load(open(rf3))
+    for v in res3["violations"] or []:
+        chk.violation(v["sig"], v["desc"], dict(kind="c13-script", detail=v))
+    chk.cov["script_scenarios"] = res3["scenarios"]
+    chk.cov["script_scenarios_with_a_blocked_call_at_cancellation"] = res3["distinct"]
+    chk.cov["script_distinct_event_sequences"] = (res3.get("extra") or {}).get("distinct_event_sequences")
     # the admin client: an ended context ends a table operation at once - while a poll is unanswered, between two polls
     from props import admin
     ad = admin.run_admin(chk)
